@@ -19,7 +19,8 @@ class Fn:
     def __init__(self, key, params=None, requires=(), ensures=(), ensures_exc=(), returns='opaque',
                  raises=None, modifies=None, loops=None, decreases=None, inline=False, externals=None,
                  setup=None, assumed_calls=None, post_hints=(), comps=None, self_cls=None,
-                 verify=True, closure_of=None, pre_hints=(), at_every_point=None, notes=''):
+                 verify=True, closure_of=None, pre_hints=(), at_every_point=None, notes='',
+                 cases=None, sets=None, sets_exc=None, alloc_ret=None):
         self.key = key
         self.params = params or {}
         self.requires = list(requires)
@@ -42,6 +43,10 @@ class Fn:
         self.closure_of = closure_of
         self.at_every_point = at_every_point   # callable(eng, st, s, where): obligations at each statement boundary
         self.notes = notes
+        self.cases = cases               # list of (name, setup) alternative entry configurations (aliasing / None-ness)
+        self.sets = sets                 # callable(s, ret) -> [(obj, field, value)]: exact post-values of heap fields
+        self.sets_exc = sets_exc
+        self.alloc_ret = alloc_ret       # callable(eng, st, s) -> return value built with state access
 
 
 class Registry:
